@@ -14,6 +14,7 @@ Design model: spec/SeqCounter.tla (complete finite graph).  Binding:
 import collections
 import sys
 import threading
+import time
 
 from .. import env, tlc
 
@@ -155,6 +156,78 @@ def _preempt_histories(n_rounds, rng):
     return logs
 
 
+class _IdleSock:
+    """a socket object on which nothing ever arrives (the engine thread started by open() just idles)"""
+
+    def settimeout(self, t):
+        pass
+
+    def recvfrom(self, n):
+        import socket as _s
+        time.sleep(0.002)
+        raise _s.timeout()
+
+    def sendto(self, *a):
+        pass
+
+    def close(self):
+        pass
+
+
+def _preempt_open_histories():
+    """as _preempt_histories, but the intruder first OPENS the socket (a lifecycle call made from another thread while
+    a caller is inside the counter method) and then asks for a number itself"""
+    from geckolib.driver import GeckoUdpSocket
+    import geckolib.driver.udp_socket as mod
+    code_files = {mod.__file__}
+    logs = []
+    for kindpair in (("P", "P"), ("C", "P")):
+        sock = GeckoUdpSocket(socket=_IdleSock())
+        hist = [[], []]
+        try:
+            for point in range(0, 14):
+                go = threading.Event()
+                done = threading.Event()
+
+                def intruder():
+                    go.wait(5)
+                    sock.open()
+                    r = sock.get_and_increment_sequence_counter(kindpair[1] == "C")
+                    hist[1].append({"kind": kindpair[1], "ret": r})
+                    done.set()
+
+                th = threading.Thread(target=intruder, daemon=True)
+                th.start()
+                count = [0]
+
+                def tracer(frame, event, arg):
+                    if frame.f_code.co_filename not in code_files or frame.f_code.co_name != "get_and_increment_sequence_counter":
+                        return None
+                    if event == "line":
+                        if count[0] == point:
+                            go.set()
+                            done.wait(0.05)
+                        count[0] += 1
+                    return tracer
+
+                sys.settrace(tracer)
+                try:
+                    r = sock.get_and_increment_sequence_counter(kindpair[0] == "C")
+                finally:
+                    sys.settrace(None)
+                hist[0].append({"kind": kindpair[0], "ret": r})
+                go.set()
+                th.join(5)
+                if th.is_alive():
+                    raise env.MachineryError("intruder thread stuck (open during call)")
+        finally:
+            if sock._exit_event is not None:
+                sock._exit_event.set()
+            sock._socket = None
+        logs.append({"thr": hist, "n": len(hist[0]) + len(hist[1]), "scenario": f"preempt+open {kindpair}"})
+    return logs
+
+
 def _stress_histories(nthreads, ncalls, rng, spa=False):
     from geckolib.driver import GeckoUdpSocket
     import geckolib.spa as spamod
@@ -218,7 +291,7 @@ def run(ctx):
     ev.sample({"edge_walk": [list(x) for x in walks[0][:8]], "walks": len(walks), "edges": len(edges)})
 
     # ---- 3. code -> spec: concurrent histories -------------------------------
-    logs = _preempt_histories(0, rng)
+    logs = _preempt_histories(0, rng) + _preempt_open_histories()
     if ctx.quick:
         logs.append(_stress_histories(4, 1500, rng))
         logs.append(_stress_histories(4, 1500, rng, spa=True))
